@@ -390,6 +390,10 @@ pub fn generate(workload: Workload, subject: SubjectKind, seed: u64) -> (Config,
     if r.chance(3, 10) {
         cfg.shape = r.range(1, 3) as u8;
     }
+    if (class == Class::Collection || subject == SubjectKind::JA) && r.chance(1, 14) {
+        // a future type larger than a page
+        cfg.shape = 8;
+    }
     if class == Class::Join && r.chance(1, 8) {
         // zero-sized outputs with a destructor (with or without drop glue on the future)
         cfg.shape = 4 | (r.below(2) as u8);
